@@ -18,14 +18,17 @@ def symText (s : Sym) : String :=
   | .var => "var" ++ toString s.idx
   | .const => "<" ++ s.ty.toStr ++ ">"
 
+/-- a letter is a (name, type) pair: one name may be used at several types -/
+def symTextTy (s : Sym) : String := symText s ++ ":" ++ s.ty.toStr
+
 partial def tokSexp : Tok Sym → Sexp
   | .any => .list [.atom "any"]
-  | .allow S => .list (.atom "allow" :: S.map (fun s => .str (symText s)))
-  | .forbidSub S => .list (.atom "forbid" :: S.map (fun s => .str (symText s)))
-  | .forceSub S => .list (.atom "force" :: S.map (fun s => .str (symText s)))
-  | .atMost S n => .list [.atom "atmost", .list (S.map (fun s => .str (symText s))), ofNat n]
-  | .atLeast S n => .list [.atom "atleast", .list (S.map (fun s => .str (symText s))), ofNat n]
-  | .func H args => .list (.atom "func" :: .list (H.map (fun s => .str (symText s))) :: args.map tokSexp)
+  | .allow S => .list (.atom "allow" :: S.map (fun s => .str (symTextTy s)))
+  | .forbidSub S => .list (.atom "forbid" :: S.map (fun s => .str (symTextTy s)))
+  | .forceSub S => .list (.atom "force" :: S.map (fun s => .str (symTextTy s)))
+  | .atMost S n => .list [.atom "atmost", .list (S.map (fun s => .str (symTextTy s))), ofNat n]
+  | .atLeast S n => .list [.atom "atleast", .list (S.map (fun s => .str (symTextTy s))), ofNat n]
+  | .func H args => .list (.atom "func" :: .list (H.map (fun s => .str (symTextTy s))) :: args.map tokSexp)
 
 /-- tokens sent by name: the names are resolved against the symbol lists -/
 partial def decTok (syms : List Sym) : Sexp → Option (Tok Sym)
